@@ -6,8 +6,12 @@
 package bfs
 
 import (
+	"crypto/sha256"
 	"time"
 )
+
+// digest keeps the seen-set small: canonical state keys are kilobytes long (full reflected dump), their SHA-256 is not.
+func digest(k string) [32]byte { return sha256.Sum256([]byte(k)) }
 
 // Op is one operation of the alphabet (JSON-serialisable so that histories are replay files).
 type Op struct {
@@ -61,14 +65,14 @@ type node struct {
 // Run explores breadth-first from every root.
 func Run(cfg Config) Result {
 	var res Result
-	seen := map[string]struct{}{}
+	seen := map[[32]byte]struct{}{}
 	var frontier []node
 	for _, r := range cfg.Roots {
 		w := cfg.New(r)
 		for _, f := range w.Init() {
 			cfg.OnFinding(r, nil, f)
 		}
-		k := r + "|" + w.Key()
+		k := digest(r + "|" + w.Key())
 		w.Close()
 		if _, ok := seen[k]; ok {
 			continue
@@ -100,7 +104,7 @@ func Run(cfg Config) Result {
 				for _, f := range fs {
 					cfg.OnFinding(n.root, h, f)
 				}
-				k := n.root + "|" + w.Key()
+				k := digest(n.root + "|" + w.Key())
 				w.Close()
 				if len(fs) > 0 {
 					continue // do not explore beyond a violating transition
